@@ -122,7 +122,7 @@ func (ex *executor) judgeDav(idx int, st *Step, xc *Exchange) {
 		}
 		ex.res.Stats.NT("C13|" + class + "|" + malformedClass(malformed, xc, st))
 	}
-	if strings.HasSuffix(st.Kind, "+encoding") && malformed == "" && status == 500 && len(fired) == 0 && len(ex.seam.Fired) == 0 {
+	if strings.HasSuffix(st.Kind, "+encoding") && malformed == "" && status == 500 && len(fired) == 0 && len(ex.seam.Fired) == 0 && (ex.bk == nil || ex.bk.OwnErr == "") {
 		add("C13", "malformed-not-4xx", fmt.Sprintf("a document in an encoding the server cannot read was answered %d %q (it may be read, or refused with 4xx)", status, clipS(string(xc.Resp.Body), 200)))
 	}
 	if st.Method == "PUT" && !davPut && xc.BodyFailed && status < 400 {
